@@ -84,7 +84,7 @@ func (v *Verifier) verifyFunc(fn *ssa.Function, c *Contract) (err error) {
 			allowed = nil
 		}
 		if c.Pure || len(c.Modifies) > 0 || len(c.Allocs) > 0 {
-			v.frameCheck(s, v.entry.heap, s.allocd, IntLit(0), c.Modifies, s.top(), "frame:"+key)
+			v.frameCheck(s, v.entry.heap, s.allocd, IntLit(0), c.Modifies, s.top(), "frame:"+key, true)
 		}
 		_ = allowed
 	}
